@@ -132,6 +132,14 @@ func (a *Agent) handleActivationRequest(msg *ActivationRequest) *ActivationRespo
 		return &ActivationResponse{Success: false}
 	}
 
+	// Actors are unique across the whole cluster: a requester that has not caught
+	// up yet (a member that just joined) must not get a second one from a member
+	// that knows the id is taken.
+	if _, ok := a.activated[msg.Kind+"/"+msg.ID]; ok {
+		slog.Warn("activation request refused", "err", "duplicated actor id across the cluster", "id", msg.Kind+"/"+msg.ID)
+		return &ActivationResponse{Success: false}
+	}
+
 	kind := a.localKinds[msg.Kind]
 	pid := a.cluster.engine.Spawn(kind.producer, msg.Kind, actor.WithID(msg.ID))
 	resp := &ActivationResponse{
